@@ -46,6 +46,10 @@ def gen_cases(tier, seed):
         if c.get('R0_form') in ('set', 'iterator', 'generator'):
             c['R0_form'] = 'list'
         c['ic_defaultdict'] = (k % 5 == 4)
+        if sim == 'Gillespie_simple_contagion' and c['kind'] == 'modes' and r.random() < 0.5 and len(c['spec']['statuses']) >= 2:
+            # only some statuses reported (SEIR reporting S and R): both return modes still describe the same run, event by event
+            k2 = len(c['spec']['statuses'])
+            c['return_idx'] = sorted(r.sample(range(k2), r.randint(1, k2 - 1)))
         if sim in ('Gillespie_SIR', 'Gillespie_SIS') and (k // len(simreg.ALL_SIMS)) % 4 == 1:
             # very uneven weights, so that weighted selection regularly needs hundreds of proposals (any give-up / fallback path of the
             # sampler is exercised): a hub with many light contacts and one heavy one, or a heavy bridge followed by light contacts
